@@ -148,6 +148,7 @@ class Scheduler:
         self.step = 0
         self.switches = []          # actual (step, tid) switches made
         self.trace = []             # (tid, kind) of sync-relevant points (for interleaving signature)
+        self.trace_steps = []       # step number of each trace entry
         self.in_check = False
         self.abort = None           # reason string
         self.invariant = None       # callable(sched) -> None, may record violations
@@ -276,6 +277,7 @@ class Scheduler:
             raise SchedAbort()
         if kind != "op":
             self.trace.append((t.tid, kind))
+            self.trace_steps.append(self.step)
         if self.invariant is not None:
             self.in_check = True
             try:
